@@ -142,6 +142,55 @@ theorem into_repr_text_i8 {ocf base st hp} (hl : LInv ocf base hp (fun _ => 0)) 
       Good ocf base st hp1 r (decimal v) ∧ (decimal v).length ≤ capOf hp1 r) :=
   intoReprCore_text hl rf _ false v (table_i8 v h1 h2) (writer_eq_decimal false v (by omega) (fun _ => by omega))
 
+/-- **C14 at the level of the public call, for every integer type and every value of it**:
+`v.try_to_lean_string()` either is refused its single allocation (nothing changed) or yields a
+handle that reads exactly `decimal v`, what `Display` prints. `usize`/`isize` go through the
+translated delegation, the 128-bit types through `itoa` (assumed to print `decimal`) and `from_str`. -/
+theorem intToReprTy_text {ocf base st hp} (hl : LInv ocf base hp (fun _ => 0)) (rf : Refuse) (ty : IntTy) (v : Int)
+    (h1 : ty.lo ≤ v) (h2 : v ≤ ty.hi) :
+    (∃ hp1, intToReprTy rf hp ty v = some (none, hp1) ∧ hp1.slots = hp.slots) ∨
+    (∃ hp1 r, intToReprTy rf hp ty v = some (some r, hp1) ∧ Good ocf base st hp1 r (decimal v)) := by
+  have core : ∀ rows wide,
+      ((∃ hp1, intoReprCore rf hp rows wide v = some (none, hp1) ∧ hp1.slots = hp.slots) ∨
+       (∃ hp1 r, intoReprCore rf hp rows wide v = some (some r, hp1) ∧ Good ocf base st hp1 r (decimal v) ∧
+          (decimal v).length ≤ capOf hp1 r)) →
+      ((∃ hp1, intoReprCore rf hp rows wide v = some (none, hp1) ∧ hp1.slots = hp.slots) ∨
+       (∃ hp1 r, intoReprCore rf hp rows wide v = some (some r, hp1) ∧ Good ocf base st hp1 r (decimal v))) := by
+    intro rows wide h
+    rcases h with h | ⟨hp1, r, he, g, _⟩
+    · exact .inl h
+    · exact .inr ⟨hp1, r, he, g⟩
+  have big : (∃ hp1, fromStr rf hp (decimal v) = (none, hp1) ∧ hp1.slots = hp.slots) ∨
+      (∃ hp1 r, fromStr rf hp (decimal v) = (some r, hp1) ∧ Good ocf base st hp1 r (decimal v)) :=
+    fromStr_fresh hl rf (decimal v) (decimal_valid v)
+  cases ty with
+  | u8 => exact core _ _ (into_repr_text_u8 hl rf v h1 h2)
+  | i8 => exact core _ _ (into_repr_text_i8 hl rf v h1 h2)
+  | u16 => exact core _ _ (into_repr_text_u16 hl rf v h1 h2)
+  | i16 => exact core _ _ (into_repr_text_i16 hl rf v h1 h2)
+  | u32 => exact core _ _ (into_repr_text_u32 hl rf v h1 h2)
+  | i32 => exact core _ _ (into_repr_text_i32 hl rf v h1 h2)
+  | u64 => exact core _ _ (into_repr_text_u64 hl rf v h1 h2)
+  | i64 => exact core _ _ (into_repr_text_i64 hl rf v h1 h2)
+  | usize =>
+    have : IntTy.usize.rows = some Gen.digitTable_u64 := by decide +kernel
+    simp only [intToReprTy, this]
+    exact core _ _ (into_repr_text_u64 hl rf v h1 h2)
+  | isize =>
+    have : IntTy.isize.rows = some Gen.digitTable_i64 := by decide +kernel
+    simp only [intToReprTy, this]
+    exact core _ _ (into_repr_text_i64 hl rf v h1 h2)
+  | u128 =>
+    simp only [intToReprTy]
+    rcases big with ⟨hp1, he, hs⟩ | ⟨hp1, r, he, g⟩
+    · exact .inl ⟨hp1, by rw [he], hs⟩
+    · exact .inr ⟨hp1, r, by rw [he], g⟩
+  | i128 =>
+    simp only [intToReprTy]
+    rcases big with ⟨hp1, he, hs⟩ | ⟨hp1, r, he, g⟩
+    · exact .inl ⟨hp1, by rw [he], hs⟩
+    · exact .inr ⟨hp1, r, by rw [he], g⟩
+
 -- non-vacuity: concrete values at row boundaries
 example : lookupRows Gen.digitTable_i64 (-1000000000000000000) = some 20 ∧ decimal (-1000000000000000000) =
     [0x2D, 49, 48, 48, 48, 48, 48, 48, 48, 48, 48, 48, 48, 48, 48, 48, 48, 48, 48, 48] := by decide
